@@ -361,7 +361,13 @@ pub fn run(tier: Tier) -> Report {
                     sweep_n(n, d, &mut r);
                     r
                 }) {
-                    Ok(r) => rep.merge(r),
+                    Ok(r) => {
+                        let clean = r.violations.is_empty();
+                        rep.merge(r);
+                        if clean && n % 4099 == 0 {
+                            crate::engine::validate_case(&mut rep, replay, json!({"kind": "ops", "n": n.to_string(), "ops": [["direct", (n.saturating_sub(1)).to_string()], ["write", 1, 1], ["write", 0, 0]]}));
+                        }
+                    }
                     Err(p) => rep.violation(Violation {
                         key: format!("C04:panic:{}", crate::engine::panic_site(&p)),
                         ord: n,
